@@ -200,7 +200,7 @@ func c12TCP(tr *poolTracker, n int) {
 	cc := tcpclient.NewConnWithOpts(coapNet.NewConn(c1), &cfg)
 	runDone := make(chan struct{})
 	go func() { _ = cc.Run(); close(runDone) }()
-	for i := 0; i < n; i++ {
+	for i := 0; i < n && !tr.bad(); i++ {
 		ctx, cancel := context.WithTimeout(context.Background(), 3*time.Second)
 		_ = cc.Ping(ctx)
 		resp, err := cc.Get(ctx, fmt.Sprintf("/t%d", i))
@@ -224,9 +224,74 @@ func c12TCP(tr *poolTracker, n int) {
 	}
 }
 
-// c12Scenario runs the scenario a descriptor names (family letter, '#', parameters) under the tracker and
-// emits its trace; the generator below only builds descriptors, so every case replays from its descriptor.
+// c12Out collects what a scenario wants to emit; it is applied to the Emitter by the main goroutine once the
+// scenario has returned (a scenario that hangs is abandoned together with its c12Out).
+type c12Out struct{ acts []func(e *Emitter) }
+
+func (o *c12Out) AddW(coq, desc string, nontrivial bool, weight int, hist ...string) {
+	o.acts = append(o.acts, func(e *Emitter) { e.AddW(coq, desc, nontrivial, weight, hist...) })
+}
+
+func (o *c12Out) Count(bucket string) {
+	o.acts = append(o.acts, func(e *Emitter) { e.Hist[bucket]++ })
+}
+
+// c12Scenario runs the scenario a descriptor names under a watchdog. A scenario that does not return is an
+// observable of its own: what the tracker has recorded so far is emitted as a `Hung` case (never accepted).
 func c12Scenario(e *Emitter, tr *poolTracker, desc string) {
+	if tr.nBroken >= 5 && e.Only == "" {
+		return // five traces with a violation are on file: no point in running the rest on a corrupted pool
+	}
+	out := &c12Out{}
+	done := make(chan interface{}, 1)
+	go func() {
+		defer func() { done <- recover() }()
+		c12ScenarioBody(out, tr, desc)
+	}()
+	limit := time.NewTimer(c12ScenarioLimit)
+	defer limit.Stop()
+	bad := tr.ctx().Done() // closed when the trace contains a violation: the scenario then gets 20 more seconds
+	for {
+		select {
+		case r := <-done:
+			if r != nil {
+				evs := tr.take()
+				e.AddW(fmt.Sprintf("Hung %s", coqLc(c12Cut(evs))), desc, false, 1+len(evs)/60, "panic")
+				return
+			}
+			for _, f := range out.acts {
+				f(e)
+			}
+			if ps := tr.takePanics(); len(ps) > 0 {
+				// library code panicked on a receive path: the model has no such run
+				e.AddW("Hung []", desc, false, 1, "panic")
+				if dbgC12() {
+					fmt.Println("panic in", desc, ":", ps[0])
+				}
+			}
+			return
+		case <-bad:
+			bad = nil
+			limit.Reset(20 * time.Second)
+		case <-limit.C:
+			tr.nBroken++
+			evs := tr.take()
+			e.AddW(fmt.Sprintf("Hung %s", coqLc(c12Cut(evs))), desc, false, 1+len(evs)/60, "hang")
+			return
+		}
+	}
+}
+
+var c12ScenarioLimit = 240 * time.Second
+
+func c12Cut(evs []lcEvent) []lcEvent {
+	if len(evs) > c12MaxEvents {
+		return evs[:c12MaxEvents]
+	}
+	return evs
+}
+
+func c12ScenarioBody(e *c12Out, tr *poolTracker, desc string) {
 	f := strings.SplitN(desc, "#", 2)
 	if len(f) != 2 {
 		return
